@@ -46,6 +46,14 @@ theorem infer_principal (ctx : Ctx) (hc : ctx.Clean) (vt svt : String → Ty) (t
   · rw [hr] at h; cases h
   · rw [hr] at h; cases h; exact ⟨ρ, hi⟩
 
+/-- `infer_result_is_completion`: the term `type_infer` returns is itself a completion of the skeleton (it also
+type-checks: `infer_sound`) — so by `infer_principal` it is the most general completion. -/
+theorem infer_result_is_completion (ctx : Ctx) (t t0 r : Skel) (fuel : Nat) (forbid : Bool)
+    (h0 : applyDefs ctx t = .ok t0) (hr : typeInfer ctx fuel forbid t = .ok r) : ∃ vt svt, Compl ctx vt svt t0 r :=
+  typeInfer_result_compl h0 hr
+
+example : (typeInfer Ex3.ctx 20 true Ex3.skel2).toOption = some Ex3.orig2 := by decide +kernel
+
 /-- `infer_principal_forbid`: with `forbid_internal` (the parser's call) a returned term has no variable left to
 instantiate, so it is the ONLY completion: every well-typed completion of the skeleton equals the result. (The
 leftover-variable case is the reported "unspecified type".) -/
